@@ -469,6 +469,9 @@ func (g *G) genC02(p *Plan) {
 			}
 		case r < 89:
 			op = Op{K: "headbucket", B: bkt()}
+			if g.chance(0.3) {
+				op = Op{K: g.pick("get", "head"), B: bkt(), Key: key(), Status: "since-epoch"}
+			}
 		case r < 92:
 			op = Op{K: "lsbuckets"}
 		case r < 95:
